@@ -102,7 +102,7 @@ func (n *node) recv(c *conn, cls string, seed int64, limit time.Duration) map[st
 	stop := m0.TotalAlloc + (1 << 30)
 	deadline := time.Now().Add(limit)
 	var last snapshot
-	quiet, polls := false, 0
+	quiet, polls, why := false, 0, "quiet"
 	for {
 		var got bool
 		got, last, polls = quiesceOnce(polls)
@@ -111,7 +111,12 @@ func (n *node) recv(c *conn, cls string, seed int64, limit time.Duration) map[st
 			break
 		}
 		runtime.ReadMemStats(&m1)
-		if m1.TotalAlloc > stop || time.Now().After(deadline) {
+		if m1.TotalAlloc > stop {
+			why = "alloc" // still running and more than 1 GiB allocated: no need to wait any longer
+			break
+		}
+		if time.Now().After(deadline) {
+			why = "cap"
 			break
 		}
 	}
@@ -136,7 +141,7 @@ func (n *node) recv(c *conn, cls string, seed int64, limit time.Duration) map[st
 	return map[string]interface{}{
 		"alive": true, "closed": c.srv.isClosed(), "hs": c.hs, "quiet": quiet, "blocked": blocked, "busy": busy,
 		"allocK": kib(m1.TotalAlloc - m0.TotalAlloc), "readK": kib(uint64(atomic.LoadInt64(&c.srv.nread) - read0)),
-		"read": atomic.LoadInt64(&c.srv.nread) - read0, "sent": sent, "wstall": wstall, "resp": c.takeInbox(), "split": mode, "polls": polls, "note": note, "ms": int(time.Since(t0) / time.Millisecond),
+		"read": atomic.LoadInt64(&c.srv.nread) - read0, "sent": sent, "wstall": wstall, "resp": c.takeInbox(), "split": mode, "polls": polls, "note": note, "stop": why, "ms": int(time.Since(t0) / time.Millisecond),
 	}
 }
 
@@ -407,6 +412,11 @@ func (a *adapter) Apply(s engine.Step) (engine.Fields, error) {
 	}
 	f := engine.Fields(m)
 	f["cseed"] = rq.Seed
+	if q, ok := m["quiet"].(bool); ok && !q {
+		// the node is still running (reported in busy): nothing later in this behaviour could be attributed to its step
+		a.kill()
+		a.dead = true
+	}
 	return f, nil
 }
 
